@@ -40,6 +40,207 @@ theorem dec_nosign (n : Nat) (ds : List Nat) : decDigits n ≠ 45 :: ds := by
   have := decDigits_digits n 45 (by rw [h]; simp)
   simp [isDigit] at this
 
+theorem dec_noplus (n : Nat) (ds : List Nat) : decDigits n ≠ 43 :: ds := by
+  intro h
+  have := decDigits_digits n 43 (by rw [h]; simp)
+  simp [isDigit] at this
+
+/-! ## decimal text read back by jsoniter's digit loop (`jiterUint`) -/
+theorem jiterDigits_append (w : Nat) : ∀ (a b : List Nat) (v : Nat),
+    jiterDigits w v (a ++ b) = (jiterDigits w v a).bind (fun v' => jiterDigits w v' b) := by
+  intro a
+  induction a with
+  | nil => intro b v; simp [jiterDigits]
+  | cons c cs ih =>
+    intro b v
+    simp only [List.cons_append, jiterDigits]
+    split
+    · split
+      · split
+        · rfl
+        · exact ih b _
+      · exact ih b _
+    · rfl
+
+/-- one more digit `d` after a prefix whose value is `q`, the total `q*10+d` still below `2^w`: no (false) overflow -/
+theorem jiterDigits_step (w q d : Nat) (hd : d < 10) (hlt : q * 10 + d < 2 ^ w) :
+    jiterDigits w q [48 + d] = some (q * 10 + d) := by
+  have h1 : 48 ≤ 48 + d ∧ 48 + d ≤ 57 := by omega
+  have h2 : 48 + d - 48 = d := by omega
+  simp only [jiterDigits, h1, and_self, if_true, h2]
+  split
+  · have hm : (q * 10 + d) % 2 ^ w = q * 10 + d := Nat.mod_eq_of_lt hlt
+    simp only [hm]
+    have : ¬ (q * 10 + d < q) := by omega
+    simp [this]
+  · rfl
+
+/-- for `n ≥ 1` the text starts with a non-zero digit and the loop over the rest returns `n` -/
+theorem jiter_dec_pos (w : Nat) : ∀ n, 0 < n → n < 2 ^ w →
+    ∃ c cs, decDigits n = c :: cs ∧ 49 ≤ c ∧ c ≤ 57 ∧ jiterDigits w (c - 48) cs = some n := by
+  intro n
+  induction n using Nat.strongRecOn with
+  | _ n ih =>
+    intro hpos hlt
+    rw [decDigits]
+    split
+    · next h10 => exact ⟨48 + n, [], rfl, by omega, by omega, by simp [jiterDigits]⟩
+    · next h10 =>
+      obtain ⟨c, cs, he, hc1, hc2, hj⟩ := ih (n / 10) (by omega) (by omega) (by omega)
+      refine ⟨c, cs ++ [48 + n % 10], by rw [he]; rfl, hc1, hc2, ?_⟩
+      rw [jiterDigits_append, hj]
+      simp only [Option.bind_some]
+      have := jiterDigits_step w (n / 10) (n % 10) (Nat.mod_lt _ (by decide)) (by omega)
+      rw [this]; congr 1; omega
+
+/-- **`strconv` decimal text is read back exactly by jsoniter's integer reader**, for every width and every value in range -/
+theorem jiter_dec (w n : Nat) (hlt : n < 2 ^ w) : jiterUint w (decDigits n) = some n := by
+  by_cases h0 : n = 0
+  · subst h0; rw [decDigits]; simp [jiterUint]
+  · obtain ⟨c, cs, he, hc1, hc2, hj⟩ := jiter_dec_pos w n (by omega) hlt
+    rw [he]
+    have hne : c ≠ 48 := by omega
+    unfold jiterUint
+    split
+    · next h => cases h
+    · next h => cases h; omega
+    · next h => cases h; omega
+    · next c' cs' _ _ h => cases h; simp [hc1, hc2, hj]
+
+/-! ## a string the `strconv` branch accepts, if it is a JSON number token, is read to the same value by jsoniter's branch -/
+theorem natLit_cases (ds : List Nat) (h : natLit ds = true) :
+    ds = [48] ∨ ∃ c cs, ds = c :: cs ∧ 49 ≤ c ∧ c ≤ 57 ∧ cs.all isDigit = true := by
+  match ds, h with
+  | [48], _ => exact Or.inl rfl
+  | c :: cs, h =>
+    by_cases h48 : c = 48 ∧ cs = []
+    · obtain ⟨h1, h2⟩ := h48; subst h1; subst h2; exact Or.inl rfl
+    · right
+      have : natLit (c :: cs) = ((decide (49 ≤ c) && decide (c ≤ 57)) && cs.all isDigit) := by
+        rw [natLit.eq_def]
+        split
+        · next heq => cases heq; exact absurd ⟨rfl, rfl⟩ h48
+        · next heq => cases heq; rfl
+        · next heq => cases heq
+      rw [this] at h
+      simp only [Bool.and_eq_true, decide_eq_true_eq] at h
+      exact ⟨c, cs, rfl, h.1.1, h.1.2, h.2⟩
+  | [], h => simp [natLit] at h
+
+theorem jiterUint_cons (w c : Nat) (cs : List Nat) (h1 : 49 ≤ c) (h2 : c ≤ 57) :
+    jiterUint w (c :: cs) = jiterDigits w (c - 48) cs := by
+  rw [jiterUint.eq_def]
+  split
+  · next heq => cases heq
+  · next heq => cases heq; omega
+  · next heq => cases heq; omega
+  · next c' cs' _ _ heq => cases heq; simp [h1, h2]
+
+theorem foldDigits_ge : ∀ (cs : List Nat) (v : Nat), v ≤ cs.foldl (fun a c => a * 10 + (c - 48)) v := by
+  intro cs
+  induction cs with
+  | nil => intro v; exact Nat.le_refl _
+  | cons c cs ih => intro v; simp only [List.foldl_cons]; exact Nat.le_trans (by omega) (ih _)
+
+theorem jiterDigits_fold (w : Nat) : ∀ (cs : List Nat) (v : Nat), cs.all isDigit = true →
+    cs.foldl (fun a c => a * 10 + (c - 48)) v < 2 ^ w →
+    jiterDigits w v cs = some (cs.foldl (fun a c => a * 10 + (c - 48)) v) := by
+  intro cs
+  induction cs with
+  | nil => intro v _ _; rfl
+  | cons c cs ih =>
+    intro v hd hlt
+    simp only [List.all_cons, Bool.and_eq_true] at hd
+    have hc : 48 ≤ c ∧ c ≤ 57 := by simpa [isDigit] using hd.1
+    simp only [List.foldl_cons] at hlt ⊢
+    have hge := foldDigits_ge cs (v * 10 + (c - 48))
+    simp only [jiterDigits, hc, and_self, if_true]
+    split
+    · have hm : (v * 10 + (c - 48)) % 2 ^ w = v * 10 + (c - 48) := Nat.mod_eq_of_lt (by omega)
+      simp only [hm]
+      have : ¬ (v * 10 + (c - 48) < v) := by omega
+      simp only [this, if_false]
+      exact ih _ hd.2 hlt
+    · exact ih _ hd.2 hlt
+
+theorem jiterUint_of_undec (w : Nat) (ds : List Nat) (n : Nat) (hl : natLit ds = true) (hu : undecDigits ds = some n)
+    (hlt : n < 2 ^ w) : jiterUint w ds = some n := by
+  rcases natLit_cases ds hl with h | ⟨c, cs, h, h1, h2, h3⟩
+  · subst h
+    have : undecDigits [48] = some 0 := by decide
+    rw [this] at hu; cases hu; simp [jiterUint]
+  · subst h
+    have hall : (c :: cs).all isDigit = true := by
+      simp only [List.all_cons, Bool.and_eq_true]; exact ⟨by simp [isDigit]; omega, h3⟩
+    simp only [undecDigits, List.isEmpty_cons, hall, Bool.not_true, Bool.or_self, Bool.false_eq_true, if_false,
+      Option.some.injEq, List.foldl_cons, Nat.zero_mul, Nat.zero_add] at hu
+    subst hu
+    rw [jiterUint_cons w c cs h1 h2]
+    exact jiterDigits_fold w cs _ h3 hlt
+
+theorem natLit_noSign (ds : List Nat) (h : natLit ds = true) : (∀ r, ds ≠ 45 :: r) ∧ (∀ r, ds ≠ 43 :: r) := by
+  rcases natLit_cases ds h with h | ⟨c, cs, h, h1, h2, _⟩ <;> subst h
+  · exact ⟨(by intro r hr; cases hr), (by intro r hr; cases hr)⟩
+  · exact ⟨(by intro r hr; cases hr; omega), (by intro r hr; cases hr; omega)⟩
+
+theorem parseNum_of_parseInt (ffmt : Nat → List Nat) (fparse : List Nat → Option Nat) (signed : Bool) (w : Nat) (t : List Nat) (n : Nat)
+    (hw : 0 < w) (hlit : jsonIntLit t = true) (h : parseInt (mkTxtF ffmt fparse) signed w t = some n) : parseNum signed w t = some n := by
+  have hp : 2 ^ w = 2 * 2 ^ (w - 1) := by
+    cases w with
+    | zero => omega
+    | succ k => simp [Nat.pow_succ]; omega
+  by_cases hneg : ∃ ds, t = 45 :: ds
+  · obtain ⟨ds, ht⟩ := hneg
+    subst ht
+    have hl : natLit ds = true := by simpa [jsonIntLit] using hlit
+    cases signed
+    · simp [parseInt] at h
+    · simp only [parseInt, mkTxtF, Bool.not_true, Bool.false_eq_true, if_false] at h
+      cases hu : undecDigits ds with
+      | none => simp [hu] at h
+      | some m =>
+        simp only [hu] at h
+        split at h
+        · next hle =>
+          cases h
+          have hpos : 0 < 2 ^ (w - 1) := Nat.pow_pos (by decide)
+          have hlt : m < 2 ^ w := by omega
+          simp only [parseNum, Bool.not_true, Bool.false_eq_true, if_false, jiterUint_of_undec w ds m hl hu hlt]
+          have : ¬ (m > 2 ^ (w - 1)) := by omega
+          simp [this]
+        · cases h
+  · have hl : natLit t = true := by
+      unfold jsonIntLit at hlit
+      split at hlit
+      · next ds => exact absurd ⟨ds, rfl⟩ hneg
+      · exact hlit
+    have hns := natLit_noSign t hl
+    unfold parseInt at h
+    split at h
+    · next ds => exact absurd rfl (hns.1 ds)
+    · next ds => exact absurd rfl (hns.2 ds)
+    · simp only [mkTxtF] at h
+      cases hu : undecDigits t with
+      | none => simp [hu] at h
+      | some m =>
+        simp only [hu] at h
+        by_cases hle : m < (if signed = true then 2 ^ (w - 1) else 2 ^ w)
+        · simp only [hle, if_true, Option.some.injEq] at h
+          subst h
+          have hlt : m < 2 ^ w := by
+            cases signed
+            · simpa using hle
+            · simp only [if_true] at hle; omega
+          unfold parseNum
+          split
+          · exact absurd rfl (hns.1 _)
+          · rw [jiterUint_of_undec w _ m hl hu hlt]
+            cases signed
+            · simp
+            · simp only [if_true] at hle
+              have : ¬ (m ≥ 2 ^ (w - 1)) := by omega
+              simp [this]
+        · simp [hle] at h
 /-! ## hex -/
 theorem hexVal_hexChar (n : Nat) (h : n < 16) : hexVal (hexChar n) = some n := by
   unfold hexChar hexVal
@@ -112,5 +313,118 @@ theorem b64dec_b64enc : ∀ (b : List Nat), bytesOk b = true → b64dec (b64enc 
     simp only [Option.some.injEq, List.cons.injEq, and_true]
     omega
   | case4 => intro _; rfl
+
+/-! ## base64 as the reader does it (`b64Read`) -/
+theorem b64char_ge (n : Nat) : 43 ≤ b64char n := by
+  unfold b64char; split <;> (try split) <;> (try split) <;> (try split) <;> omega
+
+theorem b64enc_ge : ∀ (b : List Nat) (c : Nat), c ∈ b64enc b → 43 ≤ c := by
+  intro b
+  induction b using b64enc.induct with
+  | case1 a b c rest ih =>
+    intro x hx
+    simp only [b64enc, List.mem_cons] at hx
+    rcases hx with h | h | h | h | h
+    · subst h; exact b64char_ge _
+    · subst h; exact b64char_ge _
+    · subst h; exact b64char_ge _
+    · subst h; exact b64char_ge _
+    · exact ih x h
+  | case2 a b =>
+    intro x hx
+    simp only [b64enc, List.mem_cons, List.not_mem_nil, or_false] at hx
+    rcases hx with h | h | h | h <;> subst h <;> first | exact b64char_ge _ | decide
+  | case3 a =>
+    intro x hx
+    simp only [b64enc, List.mem_cons, List.not_mem_nil, or_false] at hx
+    rcases hx with h | h | h | h <;> subst h <;> first | exact b64char_ge _ | decide
+  | case4 => intro x hx; simp [b64enc] at hx
+
+theorem b64Read_b64enc (b : List Nat) (h : bytesOk b = true) : b64Read (b64enc b) = some b := by
+  unfold b64Read
+  have : (b64enc b).filter (fun c => c != 10 && c != 13) = b64enc b := by
+    apply List.filter_eq_self.mpr
+    intro c hc
+    have := b64enc_ge b c hc
+    simp; omega
+  rw [this]; exact b64dec_b64enc b h
+
+/-- unpadded input (length not a multiple of four once `\r`/`\n` are dropped) is rejected -/
+theorem b64dec_len : ∀ (t b : List Nat), b64dec t = some b → t.length % 4 = 0 := by
+  intro t
+  induction t using b64dec.induct <;> intro b h
+  all_goals (simp_all [b64dec])
+  all_goals omega
+
+/-! ## hex: either case -/
+theorem hexVal_hexUp (c : Nat) : hexVal (hexUp c) = hexVal c := by
+  unfold hexUp
+  split
+  · next h => unfold hexVal; simp; split <;> (try split) <;> (try split) <;> (try split) <;> (try split) <;> (try split) <;> first | rfl | omega | (simp; omega)
+  · rfl
+
+theorem hexDec_map_hexUp : ∀ (t : List Nat), hexDec (t.map hexUp) = hexDec t
+  | [] => rfl
+  | [_] => rfl
+  | a :: b :: rest => by simp only [List.map_cons, hexDec, hexVal_hexUp, hexDec_map_hexUp rest]
+
+theorem hexDec_odd : ∀ (t : List Nat), t.length % 2 = 1 → hexDec t = none
+  | [] => by intro h; simp at h
+  | [_] => by intro _; rfl
+  | a :: b :: rest => by
+    intro h
+    have := hexDec_odd rest (by simp at h; omega)
+    simp [hexDec, this]
+
+theorem hexDec_hexchars : ∀ (t b : List Nat), hexDec t = some b → ∀ c ∈ t, (hexVal c).isSome = true
+  | [], _ => by intro _ c hc; cases hc
+  | [_], _ => by intro h; simp [hexDec] at h
+  | a :: b :: rest, out => by
+    intro h c hc
+    simp only [hexDec] at h
+    split at h
+    · next x y tl hx hy htl =>
+      simp only [List.mem_cons] at hc
+      rcases hc with hc | hc | hc
+      · subst hc; simp [hx]
+      · subst hc; simp [hy]
+      · exact hexDec_hexchars rest tl htl c hc
+    · cases h
+
+theorem allZero_replicate : ∀ (p : List Nat), allZero p = true → p = List.replicate p.length 0 := by
+  intro p
+  induction p with
+  | nil => intro _; rfl
+  | cons x xs ih =>
+    intro h
+    simp only [allZero, List.all_cons, Bool.and_eq_true, beq_iff_eq] at h
+    rw [List.length_cons, List.replicate_succ, h.1]
+    congr 1
+    exact ih (by simpa [allZero] using h.2)
+
+theorem hexEnc_nil_iff (p : List Nat) : hexEnc p = [] ↔ p = [] := by
+  cases p <;> simp [hexEnc]
+
+/-- **Id JSON round trip, as the code does it**: for an `n`-byte id `p` (any `n`), `UnmarshalJSON(MarshalJSON(p)) = p` — the all-zero
+id through `""`, every other id through its `2n` lower-case hex digits -/
+theorem idJSON_roundtrip (n : Nat) (p : List Nat) (hl : p.length = n) (hb : bytesOk p = true) :
+    idUnmarshalJSON n (idMarshalJSON p) = some p := by
+  unfold idMarshalJSON idUnmarshalJSON
+  by_cases hz : allZero p = true
+  · simp only [hz, if_true]
+    have : stripQuotes ([] : List Nat) = [] := rfl
+    simp only [this, List.isEmpty_nil, if_true]
+    rw [← hl]; exact congrArg some (allZero_replicate p hz).symm
+  · simp only [hz, Bool.false_eq_true, if_false, hexEnc_noquote]
+    have hne : p ≠ [] := by intro h; subst h; exact hz rfl
+    have h1 : (hexEnc p).isEmpty = false := by
+      cases p with
+      | nil => exact absurd rfl hne
+      | cons x xs => simp [hexEnc]
+    simp only [h1, Bool.false_eq_true, if_false, hexEnc_length]
+    have : ¬ (n ≠ 2 * p.length / 2) := by omega
+    simp only [this, if_false]
+    exact hexDec_hexEnc p hb
+
 
 end OtelVerif.C08
